@@ -80,6 +80,48 @@ theorem byteCheck_exec (env : Env) (nm : String) (v : PyVal) (h : env nm = some 
     · simp [byteCheck, raiseVE, execStmt, execBlock, eval, evalArgs, h, sc_py_bne_pnone, isinstance_int_py, hn, hi, byteOk]
     · simp [byteCheck, raiseVE, execStmt, execBlock, eval, evalArgs, h, sc_py_bne_pnone, isinstance_int_py, hn, hi, byteOk,
         evalCmp_lt_int, evalCmp_gt_int]
+      by_cases h1 : 0 ≤ v.intVal <;> by_cases h2 : 255 < v.intVal <;> simp [h1, h2, Int.not_le.mpr, Int.not_lt.mp]
   · simp [byteCheck, execStmt, execBlock, eval, h, sc_py_bne_pnone, hn, byteOk]
+
+
+/-- shape of the two identifier checks -/
+def idCheck (nm : String) : PStmt :=
+  .ite (.isNotNone (.var nm))
+    (.cons (.ite (.not_ (.call "isinstance_int" (.cons (.var nm) .nil))) raiseVE .nil)
+    (.cons (.ite (.cmp .lt (.var nm) (.int 0)) raiseVE .nil)
+    (.cons (.ite (.not_ (.var "self._is_29bits")) (.cons (.ite (.cmp .gt (.var nm) (.int 2047)) raiseVE .nil) .nil) .nil)
+    .nil))) .nil
+
+theorem idCheck_exec (env : Env) (nm : String) (v : PyVal) (is29 : Bool) (h : env nm = some (.sc (.py v)))
+    (h29 : env "self._is_29bits" = some (pbool is29)) :
+    execStmt noMeths env (idCheck nm) = if idOk is29 v then .ok (.next env) else .error (.exc .ValueError) := by
+  cases hn : v.isNone
+  · cases hi : v.isInt
+    · simp [idCheck, raiseVE, execStmt, execBlock, eval, evalArgs, h, sc_py_bne_pnone, isinstance_int_py, hn, hi, idOk]
+    · by_cases h1 : v.intVal < 0
+      · have h1' : ¬ 0 ≤ v.intVal := by omega
+        simp [idCheck, raiseVE, execStmt, execBlock, eval, evalArgs, h, sc_py_bne_pnone, isinstance_int_py, hn, hi, idOk,
+          evalCmp_lt_int, h1, h1']
+      · have h1' : 0 ≤ v.intVal := by omega
+        cases is29
+        · by_cases h2 : 2047 < v.intVal
+          · have h2' : ¬ v.intVal ≤ 2047 := by omega
+            simp [idCheck, raiseVE, execStmt, execBlock, eval, evalArgs, h, h29, sc_py_bne_pnone, isinstance_int_py, hn, hi, idOk,
+              evalCmp_lt_int, evalCmp_gt_int, h1, h1', h2, h2']
+          · have h2' : v.intVal ≤ 2047 := by omega
+            simp [idCheck, raiseVE, execStmt, execBlock, eval, evalArgs, h, h29, sc_py_bne_pnone, isinstance_int_py, hn, hi, idOk,
+              evalCmp_lt_int, evalCmp_gt_int, h1, h1', h2, h2']
+        · simp [idCheck, raiseVE, execStmt, execBlock, eval, evalArgs, h, h29, sc_py_bne_pnone, isinstance_int_py, hn, hi, idOk,
+            evalCmp_lt_int, h1, h1']
+  · simp [idCheck, execStmt, execBlock, eval, h, sc_py_bne_pnone, hn, idOk]
+
+theorem stmt3_exec (a : AddrArgs) (m : Mode) (b : Bool) :
+    execStmt noMeths (argsEnv a (modePV m) b) (stmtAt Src.Address_validate 2) =
+      if presenceOk a m then .ok (.next (argsEnv a (modePV m) b)) else .error (.exc .ValueError) := by
+  cases m
+  · simp [stmtAt, Src.Address_validate, execStmt, execBlock, eval, evalArgs, presenceOk]
+    trace_state
+    sorry
+  all_goals sorry
 
 end Isotp.PyAgree
